@@ -114,6 +114,30 @@ def build_from_grid(sites, spec):
     return MPO.from_grids(sites, grids, 'finite', spec['IdL'], spec['IdR'], max_range=spec.get('max_range'))
 
 
+def build_from_grid_graph(sites, spec):
+    """explicit grids (index 0 = IdL, last index = IdR on every bond) through the MPOGraph API: all IdL / IdR markers stay known,
+    the graph need not be in standard sum form (edges may return to IdL or leave IdR)"""
+    from tenpy.networks.mpo import MPOGraph
+    g = MPOGraph(sites, 'finite')
+    chis = spec['chis']
+
+    def key(bond, x):
+        if x == 0:
+            return 'IdL'
+        if x == chis[bond] - 1:
+            return 'IdR'
+        return 'k%d' % int(x)
+    for i, grid in enumerate(spec['grids']):
+        for a, row in enumerate(grid):
+            for b, ent in enumerate(row):
+                if ent is None:
+                    continue
+                for op, st in ent:
+                    g.add(i, key(i, a), key(i + 1, b), op, cplx(st) if st[1] != 0 else st[0])
+    g.add_missing_IdL_IdR()
+    return g.build_MPO()
+
+
 def random_state(sites, spec, rng):
     """a finite MPS: product state with random local vectors (no charges), or a random-unitary-evolved basis state"""
     from tenpy.networks.mps import MPS
@@ -407,6 +431,73 @@ def run_propagator(case, npz):
     return out
 
 
+def raw_grid(H, kind):
+    """raw W grid of an MPO for the make_U_I correspondence: entries decomposed into named operators (mpo_grid),
+    plus IdL / IdR normalised into range(chi) and the bond dimensions"""
+    g = mpo_grid(H, kind)
+    chi = [int(c) for c in H.chi]
+    if H.finite and len(chi) == H.L - 1:
+        chi = [int(H.get_W(0).get_leg('wL').ind_len)] + chi + [int(H.get_W(H.L - 1).get_leg('wR').ind_len)]
+    g['chi'] = chi
+    g['IdL'] = [None if x is None else int(x) % int(c) for x, c in zip(H.IdL, chi)]
+    g['IdR'] = [None if x is None else int(x) % int(c) for x, c in zip(H.IdR, chi)]
+    return g
+
+
+def permute_bonds(H, seed):
+    """the same MPO with the indices of every virtual bond permuted at random (no charges): IdL / IdR sit anywhere"""
+    from tenpy.networks.mpo import MPO
+    rng = np.random.default_rng(seed)
+    chi = [int(c) for c in H.chi]
+    perms = [rng.permutation(c) for c in chi]
+    Ws = []
+    for i in range(H.L):
+        W = H.get_W(i, copy=True)
+        W = W.permute(perms[i], W.get_leg_index('wL'))
+        W = W.permute(perms[i + 1], W.get_leg_index('wR'))
+        Ws.append(W)
+    IdL = [int(list(pm).index(int(x) % c)) for pm, x, c in zip(perms, H.IdL, chi)]
+    IdR = [int(list(pm).index(int(x) % c)) for pm, x, c in zip(perms, H.IdR, chi)]
+    return MPO(H.sites, Ws, H.bc, IdL, IdR, H.max_range, mps_unit_cell_width=H.unit_cell_width)
+
+
+def run_ui(case, npz):
+    """finite chain, exact strengths: the W grid of H and of H.make_U_I(dt) for Gaussian-integer steps dt (raw data only)"""
+    rec = Rec()
+    out = rec.out
+    kind = case['site']['type']
+    L = case['L']
+    sites = [make_site(case['site'])] * L
+    if 'grids' in case['A']:
+        H = build_from_grid_graph(sites, case['A'])
+    else:
+        H = build_from_terms(sites, case['A']['terms'], 'finite', case['A'].get('insert_all_id', True))
+    if case.get('perm_seed') is not None and all(x is not None for x in list(H.IdL) + list(H.IdR)):
+        H = permute_bonds(H, case['perm_seed'])
+        H.test_sanity()
+    out['L'] = L
+    out['gridH'] = raw_grid(H, kind)
+    out['U'] = []
+    for n, dt in enumerate(case['dts']):
+        def mk(n=n, dt=dt):
+            if dt[1] != 0:
+                t = complex(dt[0], dt[1])
+            elif case.get('int_dt'):
+                t = int(dt[0])
+            else:
+                t = float(dt[0])
+            U = H.make_U_I(t)
+            U.test_sanity()
+            g = raw_grid(U, kind)
+            g['dt'] = dt
+            out['U'].append(g)
+        rec.run('make_U_I_%d' % n, mk)
+    # H itself must not have been modified by make_U_I
+    out['gridH_after'] = raw_grid(H, kind)
+    out['errors'] = rec.errors
+    return out
+
+
 def main():
     fin, fout = sys.argv[1], sys.argv[2]
     payload = json.load(open(fin))
@@ -419,6 +510,8 @@ def main():
                 out.append(run_algebra(case, npz))
             elif case['kind'] == 'infinite':
                 out.append(run_infinite(case, npz))
+            elif case['kind'] == 'ui':
+                out.append(run_ui(case, npz))
             else:
                 out.append(run_propagator(case, npz))
         except Exception:
